@@ -244,7 +244,9 @@ def pad(p, root, nlocals, nconsts):
         names = ["pad%d" % j for j in range(i, min(i + 10, nlocals))]
         ss.append(p.local(names, [p.num(5000 + j) for j in range(i, min(i + 10, nlocals))]))
     for i in range(0, nconsts, 50):
-        ss.append(p.local(["padc"], [p.table([("p", p.num(900000 + j)) for j in range(i, min(i + 50, nconsts))])]))
+        # alternate numeric and string constants (field names and string operands go through the same pool)
+        mk = (lambda j: p.num(900000 + j)) if (i // 50) % 2 == 0 else (lambda j: p.str("pad%d" % j))
+        ss.append(p.local(["padc"], [p.table([("p", mk(j)) for j in range(i, min(i + 50, nconsts))])]))
         ss.append(p.emit([p.un("#", p.id("padc"))]))
     old = p.nodes[root]["ss"]
     return p, p.block(ss + old)
